@@ -50,6 +50,28 @@ PROPS = {
         "assumptions": [WALKERS, "lz_pos bias hook: starting the match finder position counter near 2^31 is equivalent "
                         "to an encoder that has already consumed that many bytes (empty tables)"],
     },
+    "C02": {
+        "level": "exploration",
+        "variants": {
+            "quick": [("rel", {}), ("dbg", {})],
+            "thorough": [("rel", {"timeout": 4 * 3600}), ("dbg", {"timeout": 4 * 3600})],
+        },
+        "floors": ["xz_block_start", "lzip_member_start"],
+        "rule": "case = (data family x length x container {XZ: check None/CRC32/CRC64/SHA-256, block size unset/<=dict/"
+                "<input/>=input, 0-3 pre-filters; LZIP: member size classes, dictionary sizes representable and not) x "
+                "in-range LZMA options x write partition with flushes x read-buffer sequence); own writer -> harness walker "
+                "(blocks/members partition the input in order: per-unit check field equals the checksum of the matching "
+                "input slice) -> own reader must return the input. Cell = format|check|size class|filter chain shape|dict "
+                "representability|family|length class|write shape; non-trivial = non-empty input.",
+        "manifest": {
+            "text": "Exploration of the container option space with the real XZ/LZIP writers and readers; unit boundaries are "
+                    "judged by walkers that share no code with the crate, so loss, duplication or reordering at block and "
+                    "member boundaries is observable even if the crate's reader were to mirror a writer bug.",
+            "note": "Trusts the harness walkers and the crc / sha2 crates used to recompute unit checks.",
+            "technique": "runtime monitoring: round-trip oracle + independent structure walkers over the produced files",
+        },
+        "assumptions": [WALKERS],
+    },
 }
 
 
